@@ -38,6 +38,37 @@ func c06Alphabet(c Cfg) []Op {
 	return a
 }
 
+// dirSpellingAlphabet: the same directory is opened under both spellings of its path (with / without a trailing
+// separator); the merge directory is a sibling of the data directory under either.
+func dirSpellingAlphabet(c Cfg) []Op {
+	return []Op{
+		{K: "put", Key: "a", VC: "S"},
+		{K: "put", Key: "b", VC: "L"},
+		{K: "del", Key: "a"},
+		{K: "merge", Arg: 1},
+		{K: "restart"},
+		{K: "restartslash"},
+	}
+}
+
+// manyFilesAlphabet: 140 data files in one step (every record alone exceeds DataFileSize 64), so file ids and the
+// merge-finished marker reach values above 127 / 128 data files take part in one merge.
+func manyFilesAlphabet(c Cfg) []Op {
+	return []Op{
+		{K: "fill", VC: "X", Arg: 140},
+		{K: "put", Key: "a", VC: "S"},
+		{K: "del", Key: "b"},
+		{K: "merge", Arg: 1},
+		{K: "restart"},
+	}
+}
+
+func manyFilesCfg() Cfg {
+	c := defaultCfg
+	c.FileSize = 64
+	return c
+}
+
 // mergeInfo is what the harness remembers about the last successful Merge.
 type mergeInfo struct {
 	live     map[string]string // mapping at merge time
@@ -144,7 +175,7 @@ func runC06(cfg Cfg, keys []string, ops []Op, res *TaskResult) *Violation {
 					shapes["more"] = true
 				}
 			}
-		case "restart", "restartfs":
+		case "restart", "restartfs", "restartslash":
 			if pending != nil {
 				if c, d := checkAdopted(w, pending); c != "" {
 					return viol("C06", c, c, fmt.Sprintf("step %d %s (adopting the merge of %d input files into %d): %s\n%s", i, op, pending.inFiles, pending.outFiles, d, listDirs(w)))
@@ -518,6 +549,8 @@ func init() {
 				{Name: "long-keys-d5", Cfgs: longKeyCfgs(), Keys: c18LongKeys, Alpha: longKeyMergeAlphabet, Depth: 5, Dev: 3, Run: runC06},
 				{Name: "same-offset-d6", Cfgs: []Cfg{blockCfg()}, Keys: keysAB, Alpha: sameOffsetAlphabet, Depth: 6, Dev: 6, Run: runC06},
 				{Name: fmt.Sprintf("seq-d%db%d", d, b), Cfgs: cfgs, Keys: keysAB, Alpha: c06Alphabet, Depth: d, Dev: b, Run: runC06},
+				{Name: "many-files-d4", Cfgs: []Cfg{manyFilesCfg()}, Keys: keysAB, Alpha: manyFilesAlphabet, Depth: 4, Dev: 4, Run: runC06},
+				{Name: "dir-spelling-d5", Cfgs: []Cfg{defaultCfg}, Keys: keysAB, Alpha: dirSpellingAlphabet, Depth: 5, Dev: 5, Run: runC06},
 				{Name: fmt.Sprintf("fault-d%d", fd), Cfgs: []Cfg{defaultCfg, mm}, Keys: keysAB, Alpha: faultAlpha, Depth: fd, Dev: 2, Run: runC06Fault},
 			})
 			// writers racing the merge scan: all schedules of Merge || 1-2 writer calls (same scenarios as C08's
@@ -590,6 +623,7 @@ func init() {
 			}
 			return seqTasks("C18", []seqLevel{
 				{Name: fmt.Sprintf("d%db%d", d, b), Cfgs: cfgs, Keys: c18Keys, Alpha: c18Alphabet, Depth: d, Dev: b, Run: runC18},
+				{Name: "many-files-d4", Cfgs: []Cfg{manyFilesCfg()}, Keys: keysAB, Alpha: manyFilesAlphabet, Depth: 4, Dev: 4, Run: runC18},
 				{Name: "long-keys-d4", Cfgs: longCfgs, Keys: c18LongKeys, Alpha: c18LongAlphabet, Depth: 4, Dev: 2, Run: runC18},
 			})
 		},
